@@ -1,15 +1,34 @@
 (** C20 — obligations over the facts regenerated from /repo (Gen/C20Facts.v). *)
-From Coq Require Import List Bool Arith String.
+From Coq Require Import List Bool Arith ZArith String.
 Import ListNotations.
-Require Import Nib.C20.Model Nib.C20.Spec Nib.C20.Shape Nib.C20.Check Nib.C20.Property.
+Require Import Nib.C20.Model Nib.C20.Spec Nib.C20.Shape Nib.C20.Check Nib.C20.Proofs Nib.C20.Property.
 Require Import Nib.Gen.C20Facts.
 
 (** Every persistent collection declared in the seven keepers is carried by a GenesisState field that
     ExportGenesis fills and InitGenesis reads, or is an index of one that is, or is on the explicit
-    exception list; every GenesisState field is used both ways. *)
+    exception list; every GenesisState field is used both ways; nothing classified has disappeared. *)
 Theorem C20_every_collection_has_genesis_support : shape_ok collections modules = true.
 Proof. vm_compute. reflexivity. Qed.
 
-(** The two genesis formulas of the current tree are the ones under which the strict theorems hold. *)
+(** The two genesis formulas of the current tree are the ones under which the strict theorems hold,
+    i.e. the exception list of the current tree is exactly the tolerated one. *)
 Theorem C20_current_cfg_ok : cfg_ok current_cfg = true.
 Proof. vm_compute. reflexivity. Qed.
+
+Theorem C20_current_exceptions : exceptions current_cfg = tolerated.
+Proof. exact (C20_exceptions_of_ok_tree current_cfg C20_current_cfg_ok). Qed.
+
+(** The property for the current tree, at full strength. *)
+Theorem C20_holds_for_current_tree : forall F env h t s, wf_app F env s ->
+  exists g s',
+    export_app env s = Some g /\
+    init_app current_cfg F env (tf_bankmd (a_tf s)) h t g = Some s' /\
+    state_equiv false false env h t s s'.
+Proof. intros F env h t s. exact (C20_state_equiv current_cfg F env h t s C20_current_cfg_ok). Qed.
+Print Assumptions C20_holds_for_current_tree.
+
+Theorem C20_second_export_for_current_tree : forall F env h t s, wf_app F env s ->
+  exists g s' g', export_app env s = Some g /\ init_app current_cfg F env (tf_bankmd (a_tf s)) h t g = Some s' /\
+                  export_app env s' = Some g' /\ gen_equiv h g g'.
+Proof. intros F env h t s. exact (C20_export_roundtrip current_cfg F env h t s). Qed.
+Print Assumptions C20_second_export_for_current_tree.
